@@ -658,6 +658,24 @@ where
                     return;
                 }
             }
+            // The same over-declared input on a chain whose per-predicate limit is exactly what the
+            // predicate needs: the limit must not turn the mismatch into a match.
+            if gp.delta > 0 {
+                let mut tight = env.params.clone();
+                tight.max_gas_per_predicate = g;
+                let v2: Verdict = predicates::check_predicates(&c, &tight, MemoryInstance::new(), &env.blobs, env.ecal).map(|p| p.gas_used()).map_err(|e| pvf_name(&e));
+                let _ = env.blobs.take_log();
+                ctx.event("gas-probe-tight-limit", i as u64, verdict_code(&v2));
+                if v2.is_ok() {
+                    if ctx.violate(
+                        "exact-gas",
+                        "exact-gas:per-predicate-limit",
+                        format!("predicate input {i} needs {g} gas; declared {ng} was accepted by check_predicates when max_gas_per_predicate = {g}: {}", show(&v2)),
+                    ) {
+                        return;
+                    }
+                }
+            }
             if let Some(sched) = sc.schedules.get(gp.schedule as usize) {
                 seams::install(sched);
                 let r = par_check(&c, env);
